@@ -28,7 +28,22 @@ pub struct Expect {
     pub other_session: Vec<String>,
 }
 
-const REJECTED: [&str; 8] = ["zz9", "i0 = = 5", "[1, 2", "[0x00, 1] __integer_add__", "%nosuchmodule", "5 unknownfn", "x = #'int { [~, zz] __integer_add__ }", "'bad = "];
+const REJECTED: [&str; 11] = [
+    "zz9",
+    "i0 = = 5",
+    "[1, 2",
+    "[0x00, 1] __integer_add__",
+    "%nosuchmodule",
+    "5 unknownfn",
+    "x = #'int { [~, zz] __integer_add__ }",
+    "'bad = ",
+    // rejected only after an import has been resolved
+    "[1, 4] %mm.add [~, nope] %mm.add",
+    "%mm.k [~, 0x00] %mm.add",
+    "q = %mm2, q.nosuchfield",
+];
+const MM: &str = "[add: #['int, 'int] { __integer_add__ }, k: 7, b: [0x0a, 0x0b] __binary_concat__]";
+const MM2: &str = "[twice: #'int { [~, 2] __integer_multiply__ }]";
 
 struct G {
     ints: Vec<String>,
@@ -85,7 +100,49 @@ impl G {
         let mut out = Vec::new();
         let was_int = self.last_int;
         self.last_int = false;
-        match rng.below(24) {
+        // frequent special cases first: value steps, uses of the flowing value, alias-only steps
+        if was_int && rng.chance(1, 4) {
+            out.push(s(format!("[~, {}] __integer_add__", rng.range(1, 9))));
+            self.last_int = true;
+            return out;
+        }
+        if rng.chance(1, 10) {
+            let ty = self.fresh("al");
+            out.push(Step { src: format!("'{ty} = ['int, 'bin]"), alias: true, fails: false });
+            self.last_int = was_int;
+            return out;
+        }
+        if rng.chance(1, 6) {
+            out.push(s(self.int_expr(rng)));
+            self.last_int = true;
+            return out;
+        }
+        match rng.below(28) {
+            24 => {
+                // an alias-only step is transparent to the flow: the previous value keeps flowing
+                let ty = self.fresh("al");
+                out.push(Step { src: format!("'{ty} = ['int, 'bin]"), alias: true, fails: false });
+                self.last_int = was_int;
+                if was_int && rng.chance(1, 2) {
+                    out.push(s(format!("[~, {}] __integer_add__", rng.range(1, 9))));
+                }
+            }
+            25 => {
+                // a member of an in-memory module (first use may be on any line)
+                let e = self.int_expr(rng);
+                out.push(s(format!("[{e}, {}] %mm.add", rng.range(1, 9))));
+                self.last_int = true;
+            }
+            26 => {
+                let n = self.fresh("i");
+                out.push(s(format!("{n} = %mm.k %mm2.twice")));
+                self.ints.push(n);
+            }
+            27 => {
+                let n = self.fresh("b");
+                out.push(s(format!("{n} = [%mm.b, {}] __binary_concat__", self.bin_lit())));
+                self.bins.push(n);
+            }
             20 => {
                 // a pattern type whose set of inhabitants grows on later lines
                 let (v, o) = (self.fresh("vv"), self.fresh("opt"));
@@ -107,7 +164,6 @@ impl G {
                     }
                     _ => {
                         out.push(s(format!("None {f}")));
-                        self.last_int = true;
                     }
                 }
             }
@@ -338,7 +394,7 @@ impl Property for C11 {
         Scenario {
             family: "c11-session".into(),
             ops: vec![],
-            modules: vec![],
+            modules: vec![(vec!["mm".to_string()], MM.to_string()), (vec!["mm2".to_string()], MM2.to_string())],
             files: Default::default(),
             timing: false,
             io: false,
@@ -414,6 +470,20 @@ impl Property for C11 {
                 }
                 if !other.is_empty() && rng.chance(1, 2) {
                     ops.push(ClientOp::Line { session: 1, src: other.pop().unwrap() });
+                }
+            }
+        }
+        if std::env::var("QSIM_DEBUG").is_ok() {
+            for o in &ops {
+                if let ClientOp::Line { src, .. } = o && (src.contains("'al") || src.contains("[~")) { eprintln!("AL-LINE: {src}"); }
+            }
+            for w in ops.windows(2) {
+                if let (ClientOp::Line { src: a, .. }, ClientOp::Line { src: b, .. }) = (&w[0], &w[1])
+                    && a.starts_with("'al")
+                    && a.ends_with("'bin]")
+                    && b.starts_with("[~")
+                {
+                    eprintln!("ALIAS-THEN-FLOW: {a} || {b}");
                 }
             }
         }
